@@ -247,15 +247,20 @@ func (m *SegmentUInt64Map[V]) Values() iter.Seq[V] {
 
 // Clear removes all entries from the map
 func (m *SegmentUInt64Map[V]) Clear() {
-	// For each segment
+	// Segments are emptied one lock at a time, so writers keep running
+	// against the segments already passed. Subtract what each segment
+	// actually held, as ClearSegment does: storing zero afterwards would
+	// erase the count changes of every Set or Del that landed in a cleared
+	// segment meanwhile, and Len would disagree with the reachable entries
+	// from then on.
 	for _, segment := range m.segments {
 		segment.rwlock.Lock()
+		itemsCleared := int64(segment.data.Len())
 		segment.data.Clear()
 		segment.rwlock.Unlock()
-	}
 
-	// Reset count
-	m.count.Store(0)
+		m.count.Add(-itemsCleared)
+	}
 }
 
 // ClearSegment clears a specific segment - for radical eviction
